@@ -291,6 +291,32 @@ def _fit():
                         "model-checked separately by this check: its violations are counted as leads in the evidence")
 
 
+def _resample(prop):
+    kinds = {"C08": ("billing", "subdaily"), "C09": ("temp",)}[prop]
+
+    def variants(tier, r, cin):
+        if cin["kind"] == "billing":
+            return ["baseline", "reporting"] if tier == "thorough" else [r.choice(["baseline", "reporting"])]
+        if cin["kind"] == "subdaily":
+            return ["nan-cells", "absent-rows"] if tier == "thorough" else [r.choice(["nan-cells", "absent-rows"])]
+        return ["feed-local", "feed-utc"] if tier == "thorough" else [r.choice(["feed-local", "feed-utc"])]
+
+    keep = 'pc = "done"'
+    return runner.PureSpec(
+        prop=prop, module="Resample", trace_module="ResampleTrace", driver="drivers.resample", keep=keep,
+        cfg={"quick": "Resample_quick.cfg", "thorough": "Resample_thorough.cfg"}, sample={"quick": None, "thorough": None}, variants=variants,
+        spec_files=["Resample.tla", "ResampleDefs.tla", "ResampleTrace.tla", "Rat.tla"],
+        case_filter=lambda cin: cin["kind"] in kinds,
+        rule="TLC enumerates billing cycles (monthly / bi-monthly) with a period length on both sides of 25 / 35 / 70 days and a 23- or 25-hour day inside a "
+             "period, sub-daily meter readings (15 / 30 / 60 min) and temperature feeds (30 / 60 min) on 23 / 24 / 25-hour days with every number of "
+             "missing readings (leading block or spread); each is built as real series / frames in America/Chicago and pushed through the billing and "
+             "daily data classes; non-trivial = billing case, or at least one missing reading",
+        assumptions=["whole-hour DST zone (America/Chicago), timestamps aligned to local midnight / to the reading interval; the final open-ended day is not judged",
+                     "amounts are chosen so that per-day values are integers; values are snapped with limit_denominator(5000) and must be exact to 1e-9",
+                     "estimated reads (no public input for them in the data classes) are not generated"],
+        invariants_note="MC config checks conservation (constant rate x day lengths = amount), monotonicity of the coverage rule, distinct missing indices")
+
+
 class C12Entry:
     def run(self, tier):
         # structural half: the refine / reduce / read-back chain on exact rationals; violations are leads, not verdicts
@@ -373,7 +399,7 @@ class LifeEntry:
         return lifeprops.selftest(self.prop)
 
 
-_REG = {"C20": lambda: PureEntry(_window()), "C07": lambda: C07Entry(), "C19": lambda: PureEntry(_agg()), "C06": lambda: C06Entry(), "C18": lambda: PureEntry(_seg()), "C14": lambda: PureEntry(_settings()), "C10": lambda: PureEntry(_suff()), "C13": lambda: PureEntry(_split()), "C17": lambda: PureEntry(_prep()), "C16": lambda: PureEntry(_metrics()), "C11": lambda: PureEntry(_curve()), "C12": lambda: C12Entry()}
+_REG = {"C20": lambda: PureEntry(_window()), "C07": lambda: C07Entry(), "C19": lambda: PureEntry(_agg()), "C06": lambda: C06Entry(), "C18": lambda: PureEntry(_seg()), "C14": lambda: PureEntry(_settings()), "C10": lambda: PureEntry(_suff()), "C13": lambda: PureEntry(_split()), "C17": lambda: PureEntry(_prep()), "C16": lambda: PureEntry(_metrics()), "C11": lambda: PureEntry(_curve()), "C12": lambda: C12Entry(), "C08": lambda: PureEntry(_resample("C08")), "C09": lambda: PureEntry(_resample("C09"))}
 for _p in ("C01", "C02", "C03", "C04", "C05"):
     _REG[_p] = (lambda p: (lambda: LifeEntry(p)))(_p)
 
